@@ -171,7 +171,7 @@ func c09Space(tier string) (fams []c09Family, total int) {
 			return fmt.Sprintf("%s: cut at %d", s.Name, i), s.Data[:i], s.Raw
 		}})
 		// (a') pairs of annotated fields (thorough)
-		if tier == "thorough" && len(s.Fields) >= 2 {
+		if (tier == "thorough" || s.Raw) && len(s.Fields) >= 2 {
 			nf := len(s.Fields)
 			npairs := nf * (nf - 1) / 2
 			fams = append(fams, c09Family{"pairs/" + s.Name, npairs * nvals * nvals, func(i int) (string, []byte, bool) {
@@ -430,8 +430,8 @@ func C09(tier string) {
 	r := ev.Begin("C09", tier, "exploration")
 	r.NotExhaustive()
 	fams, total := c09Space(tier)
-	r.Rule(fmt.Sprintf("deviation-bounded exhaustive mutation of %d seeds (each format variant, with real ICC v2/v4 profiles embedded in each container, and bare profiles): (a) EVERY 32-bit big-endian window (plus little-endian for WebP, 16-bit for JPEG) at every offset x %d boundary values (0,1,8,9,12,...,2^31-1,2^31,2^32-1, field+/-1, field+/-12, input length, bytes remaining, 2^32-field); thorough adds all pairs of annotated length/count/offset fields; (b) every single-byte substitution (255 values x every position); (c) every truncation; (d) crafted legal-but-amplifying shapes (shared mluc strings, deflate bombs, many tags/segments/chunks) at 3-4 scales; each through 4 loaders + ICCProfile + Description (bare profiles: ReadProfile + Description, direct and behind bufio); %d cases in %d families; distinct = cases (each is a distinct byte string by construction except substitutions equal to a boundary value)", len(c09Seeds()), len(c09Values)+7, total, len(fams)))
-	r.Assume("memory: Go heap bytes allocated during the call (runtime/metrics /gc/heap/allocs:bytes, cumulative, GC-independent) <= 1 MiB + 8192 x input length; time: CPU time of the calling OS thread <= 2 s + 50 us x input length (three orders of magnitude above normal cost) with a 120 s wall-clock watchdog for true hangs; cases run in worker processes under ulimit -v 6 GiB, a worker that dies or stalls is a violation for its in-flight case")
+	r.Rule(fmt.Sprintf("deviation-bounded exhaustive mutation of %d seeds (each format variant, with real ICC v2/v4 profiles embedded in each container, and bare profiles): (a) EVERY 32-bit big-endian window (plus little-endian for WebP, 16-bit for JPEG) at every offset x %d boundary values (0,1,8,9,12,...,2^31-1,2^31,2^32-1, field+/-1, field+/-12, input length, bytes remaining, 2^32-field); all pairs of annotated length/count/offset fields of the bare profiles (thorough: of every seed); (b) every single-byte substitution (255 values x every position); (c) every truncation; (d) crafted legal-but-amplifying shapes (shared mluc strings, deflate bombs, many tags/segments/chunks) at 3-4 scales; each through 4 loaders + ICCProfile + Description (bare profiles: ReadProfile + Description, direct and behind bufio); %d cases in %d families; distinct = cases (each is a distinct byte string by construction except substitutions equal to a boundary value)", len(c09Seeds()), len(c09Values)+7, total, len(fams)))
+	r.Assume("memory: Go heap bytes allocated during the call (runtime/metrics /gc/heap/allocs:bytes, cumulative, GC-independent) <= 1 MiB + 8192 x input length; time: CPU time of the calling OS thread <= 2 s + 50 us x input length (three orders of magnitude above normal cost) with a 60 s wall-clock watchdog for true hangs (a worker is restarted after a crash or hang at most twice, then its share is reported as not covered); cases run in worker processes under ulimit -v 6 GiB, a worker that dies or stalls is a violation for its in-flight case")
 	r.Assume("coverage-guided fuzzing and seeded random mutation (clauses b and d of the quantifier) are sampling and are replaced by the exhaustive 1- and 2-deviation mutation above")
 
 	nw := ev.Workers()
@@ -456,7 +456,7 @@ func C09(tier string) {
 			defer wg.Done()
 			start := 0
 			statusPath := filepath.Join(work, fmt.Sprintf("status-%d", w))
-			for attempt := 0; attempt < 50; attempt++ {
+			for attempt := 0; attempt < 3; attempt++ {
 				cmd := exec.Command("sh", "-c", fmt.Sprintf("ulimit -v 6291456; exec %s worker c09 %s %d %d %d %s", os.Args[0], tier, w, nw, start, statusPath))
 				cmd.Env = os.Environ()
 				stdout, _ := cmd.StdoutPipe()
@@ -505,7 +505,7 @@ func C09(tier string) {
 							rk := int64(binary.LittleEndian.Uint64(b))
 							if rk != lastRank {
 								lastRank, lastChange = rk, time.Now()
-							} else if time.Since(lastChange) > 120*time.Second {
+							} else if time.Since(lastChange) > 60*time.Second {
 								hung = true
 								_ = cmd.Process.Kill()
 							}
@@ -528,10 +528,13 @@ func C09(tier string) {
 				kind := "crash"
 				why := "the process running the call died: " + tail(stderr.Bytes(), 300)
 				if hung {
-					kind, why = "hang", "no progress for 120 s; the process was killed"
+					kind, why = "hang", "no progress for 60 s; the process was killed"
 				}
 				report(c09Result{rk, kind, name, "worker", why, len(data), hexHead(data, 512), 0, 0})
 				start = rk + 1
+				if attempt == 2 {
+					r.Cap(fmt.Sprintf("worker %d stopped after 3 crashes/hangs at rank %d of %d", w, rk, total))
+				}
 			}
 		}(w)
 	}
